@@ -741,6 +741,21 @@ func baseIsRecv(base, recv ssa.Value, depth int) bool {
 // isFirstSegmentOf: v is the part of name before its first dot (strings.Split/SplitN(name, ".")[0],
 // the first result of strings.Cut(name, "."), or name[:strings.Index(name, ".")]).
 func isFirstSegmentOf(v ssa.Value, name ssa.Value) bool {
+	// a join (e.g. the result of a small helper that was expanded): every alternative that is not the
+	// empty string must be the first segment
+	if _, isPhi := v.(*ssa.Phi); isPhi {
+		n := 0
+		for _, leaf := range phiLeaves(v) {
+			if s, isK := constString(leaf); isK && s == "" {
+				continue
+			}
+			n++
+			if !isFirstSegmentOf(leaf, name) {
+				return false
+			}
+		}
+		return n > 0
+	}
 	isDotSplit := func(call *ssa.Call, fns ...string) bool {
 		cal, _ := calleeOf(call.Common())
 		if cal == nil || cal.Pkg() == nil || cal.Pkg().Path() != "strings" || len(call.Call.Args) < 2 || call.Call.Args[0] != name {
